@@ -12,7 +12,7 @@ G  TLC Gen_PageStore: every add/redirect/commit history up to the bound, with th
    TLC -simulate: longer random behaviours of the same spec, replayed the same way.
 S  the namespace table of a site as the model's constant (PageStore.tla Ns*, MC_PageStore S_*):
         MC_PageStore_site / Demo_PageStore_canon_unfolded on the built-in English excerpt, and
-        Gen_PageStore_S once per shipped language configuration (data/<lang>/namespaces.json as
+        Gen_PageStore_M over the shipped language configurations (data/<lang>/namespaces.json as
         the real context holds it): TLC derives which spellings name which namespace (local name,
         canonical name, aliases, each in every letter case, blanks as underscores), enumerates the
         histories and the lookup table; replayed into a Wtp(lang_code=<lang>).
@@ -259,21 +259,26 @@ def site_table(lang: str, wide: bool = False, select=None):
     return {"lang": lang, "nstab": entries, "fold": fold, "namespaces": select}
 
 
-def gen_site(site, maxlen: int):
-    """Gen_PageStore over the namespace table of one site -> (TLCResult, args, tables, SITE record)."""
-    cfg = (common.SPEC / "Gen_PageStore_S.cfg").read_text().replace("MaxLen = 2", f"MaxLen = {maxlen}")
+def gen_sites(sites):
+    """Gen_PageStore_M over the namespace tables of `sites` (one TLC run walks them all)
+    -> (TLCResult, {lang: (args, tables, SITE record)})."""
     with Scratch("c10s-") as d:
-        f = d / "site.json"
-        f.write_text(json.dumps(site))
-        r = tlc("Gen_PageStore", "gen_site.cfg", cfg_text=cfg, workers=1, timeout=3000, env={"NS_FILE": str(f), **TLC_UTF8})
-    info = r.tagged("SITE")
-    if not info:
-        raise common.TLCError(f"Gen_PageStore_S printed no SITE record ({site['lang']})")
-    info = info[0]
-    if not set(info["pfxns"]) <= set(site["fold"]) or sorted(info["namespaces"]) != sorted(site["namespaces"]):
-        raise common.TLCError(f"namespace table of {site['lang']} did not survive the transport to TLC")
-    args, tables = load_gen(r)
-    return r, args, tables, info
+        f = d / "sites.json"
+        f.write_text(json.dumps({"sites": sites}))
+        r = tlc("Gen_PageStore", "Gen_PageStore_M.cfg", workers=1, timeout=6000, env={"NS_FILE": str(f), **TLC_UTF8})
+    out = {}
+    infos = {c["site"]: c for c in r.tagged("SITE")}
+    tables = {i: {} for i in infos}
+    for c in r.cases:
+        tables[c["site"]][common.json_key(c["hist"])] = {"cur": c["cur"], "com": c["com"]}
+    for i, site in enumerate(sites, 1):
+        info = infos.get(i)
+        if info is None or info["lang"] != site["lang"]:
+            raise common.TLCError(f"Gen_PageStore_M printed no SITE record for {site['lang']}")
+        if not set(info["pfxns"]) <= set(site["fold"]) or sorted(info["namespaces"]) != sorted(site["namespaces"]):
+            raise common.TLCError(f"namespace table of {site['lang']} did not survive the transport to TLC")
+        out[site["lang"]] = (info["args"], tables[i], info)
+    return r, out
 
 
 def describe_prefix(site, info, title: str):
@@ -303,14 +308,19 @@ def _start_sites(plan, tier):
     (they run beside the other engines' TLC runs) -> handle for finish_sites."""
     import concurrent.futures as cf
 
-    sites = {lang: site_table(lang, wide) for lang, _, _, wide in plan}
-    ex = cf.ThreadPoolExecutor(max_workers=5 if tier == "thorough" else len(plan) + 2)
+    sites = {lang: dict(site_table(lang, wide), maxlen=maxlen) for lang, maxlen, _, wide in plan}
+    order = [sites[lang] for lang, _, _, _ in plan]
+    # the sites with the long histories in one run, the others in runs of 60
+    big = [x for x in order if x["maxlen"] > 1]
+    small = [x for x in order if x["maxlen"] <= 1]
+    batches = ([big] if big else []) + [small[i : i + 60] for i in range(0, len(small), 60)]
+    ex = cf.ThreadPoolExecutor(max_workers=4)
     futs = {
         "MC_site": ex.submit(tlc, "MC_PageStore", "MC_PageStore_site.cfg", workers=4, timeout=1800),
         "Demo": ex.submit(tlc, "MC_PageStore", "Demo_PageStore_canon_unfolded.cfg", workers=1, check=False),
     }
-    for lang, maxlen, _, _ in plan:
-        futs[lang] = ex.submit(gen_site, sites[lang], maxlen)
+    for k, b in enumerate(batches):
+        futs[("gen", k)] = ex.submit(gen_sites, b)
     return {"plan": plan, "sites": sites, "futs": futs, "ex": ex}
 
 
@@ -332,17 +342,14 @@ def _finish_sites(o: Outcome, h):
     o.extra["demo_unfolded_canonical_name_violates_invariant"] = bool(done["Demo"].invariant_violated)
     if not done["Demo"].invariant_violated:
         raise common.TLCError("Demo_PageStore_canon_unfolded no longer shows the unrecognised canonical name (vacuity guard)")
-    gens = {lang: done[lang] for lang, _, _, _ in plan}
-    tot = None
+    gens = {}
+    for k, v in done.items():
+        if isinstance(k, tuple):
+            o.add_tlc(f"Gen_sites[{k[1]}] x{len(v[1])}", v[0])
+            gens.update(v[1])
     sets, work, skipped = {}, [], []
     for lang, maxlen, stride, _ in plan:
-        r, args, tables, info = gens[lang]
-        if tot is None:
-            tot = r
-        else:
-            tot.distinct += r.distinct
-            tot.generated += r.generated
-            tot.wall += r.wall
+        args, tables, info = gens[lang]
         if not info["wellformed"]:   # a spelling that names two namespaces: the statement has no single answer
             skipped.append(lang)
             o.note_drift({"site": lang, "what": "ambiguous namespace table, not replayed"})
@@ -354,7 +361,6 @@ def _finish_sites(o: Outcome, h):
         top = max(len(x) for x in hists)
         work += [(lang, x, "lazy") for x in hists if x]
         work += [(lang, x, "eager") for x in [x for x in hists if len(x) == top][::stride]]
-    o.add_tlc(f"Gen_site x{len(plan)}", tot)
     _G["sets"] = sets
     res = pmap(replay_chunk, work)
     for r in res:
@@ -363,7 +369,7 @@ def _finish_sites(o: Outcome, h):
         o.shape(("site", r["key"], common.json_key(r["hist"])))
         if r["nbad"]:
             b = r["bad"][0]
-            site, info = sites[r["key"]], gens[r["key"]][3]
+            site, info = sites[r["key"]], gens[r["key"]][2]
             call = b["call"][0] if b["call"] else "exception"
             kind, spelled = describe_prefix(site, info, b["call"][1]) if b["call"] else ("", "")
             if kind == "no prefix" and call in ("get_page_resolve_redirect", "get_page_body"):
@@ -388,7 +394,7 @@ def _finish_sites(o: Outcome, h):
     if sets:
         l0 = list(sets)[min(1, len(sets) - 1)]
         o.sample({"site": l0, "namespaces": sites[l0]["namespaces"],
-                  "prefix_spellings": {p: n for p, n in gens[l0][3]["pfxns"].items() if n in sites[l0]["namespaces"]}})
+                  "prefix_spellings": {p: n for p, n in gens[l0][2]["pfxns"].items() if n in sites[l0]["namespaces"]}})
 
 
 def site_plan(tier):
